@@ -108,11 +108,20 @@ def _case(draw, tier):
         mesh = draw(meshgen.any_mesh(max_pts=40 if big else 20))
         if kind == "subdiv":
             mesh = meshgen.subdivide_edges(draw, mesh)
+    extra_width = draw(sampled_from([0, 0, 0, 1, 2]))
     if draw(st.integers(0, 7)) == 0:
         # strip of k quads cut out of a structured mesh, keeping the full mesh's node numbering (row stride = nlon);
-        # the row stride is drawn near the number of entries of the strip's own table as well as freely
+        # the row stride is drawn freely, or (half of the strips, each offset equally often) next to the number of
+        # entries of the strip's own table, where index arithmetic based on the table's size breaks down
         k = draw(st.integers(1, 12))
-        nlon = draw(st.integers(k + 2, 64) | st.integers(max(k + 2, 4 * k - 1), 4 * k + 5))
+        how = draw(st.integers(0, 5))
+        if how >= 2:
+            # (a key "first * base + second" with base = entries - 1 .. entries + 2 makes the vertical edge (a, a + stride)
+            # collide with the horizontal edge (a + 1, a + 2) when stride = base + 2)
+            k = max(k, 2)
+            nlon = max(k + 2, (4 + extra_width) * k + [1, 2, 3, 4][how - 2])
+        else:
+            nlon = draw(st.integers(k + 2, 64))
         r0, c0 = draw(st.integers(0, 2)), draw(st.integers(0, max(0, nlon - k - 1)))
         nrow = r0 + 2
         nodes = [[-180.0 + 360.0 * (c + 0.25) / nlon, -40.0 + 20.0 * r] for r in range(nrow) for c in range(nlon)]
@@ -136,7 +145,7 @@ def _case(draw, tier):
         mesh["family"] = mesh.get("family", "?") + "-orphan-nodes"
     return {
         "mesh": mesh,
-        "extra_width": draw(sampled_from([0, 0, 0, 1, 2])),
+        "extra_width": extra_width,
         "access": draw(st.permutations([0, 1, 2, 3, 4])),
         "layout": draw(sampled_from(["C", "C", "F", "view"])),
         # a second grid of the same table shape (faces renumbered / corners rotated) deriving its
@@ -179,6 +188,12 @@ def classify(case):
     if list(case["access"]) != [0, 1, 2, 3, 4]:
         labs.append("non-default-access-order")
     labs.append("layout:" + case.get("layout", "C"))
+    if mesh.get("family", "").startswith("strip-extract") and mesh["faces"] and len(mesh["faces"][0]) == 4:
+        k_, stride = len(mesh["faces"]), mesh["faces"][0][3] - mesh["faces"][0][0]
+        off = stride - (4 + case["extra_width"]) * k_
+        labs.append(f"strip:row-stride=table-entries{off:+d}" if -1 <= off <= 5 else "strip:row-stride-free")
+        if case.get("supplied_edges") is None and not case.get("subset"):
+            labs.append("strip:edges-derived-from-the-table")
     if case.get("companion_after") is not None:
         labs.append("companion-grid-interleaved")
     if case.get("subset"):
